@@ -1759,7 +1759,10 @@ class Method:
         if self.http_opt is None:
             return set()
 
-        params = set(self.path_params)
+        # `input.fields` is keyed by the disambiguated field names.
+        params = set(
+            p + "_" if p in utils.RESERVED_NAMES else p for p in self.path_params
+        )
         body = self.http_opt.get("body")
         if body:
             if body == "*":
